@@ -26,6 +26,7 @@ def lemma(name, stmt, proof):
 for n in range(1, 10):
     lemma('gen_bezier_point_%d' % n, '%s t : gen_bezier_point_%d N %s t = bezier_point N %s t' % (pts(n), n, pts(n), lst(n)), 'ring_lin N OK.')
     lemma('gen_bezier2polynomial_%d' % n, '%s : gen_bezier2polynomial_%d N %s = bezier2polynomial N %s' % (pts(n), n, pts(n), lst(n)), 'field_lin N OK.')
+    lemma('gen_bezier2polynomial_asc_%d' % n, '%s : gen_bezier2polynomial_asc_%d N %s = rev (bezier2polynomial N %s)' % (pts(n), n, pts(n), lst(n)), 'field_lin N OK.')
     if n >= 2:
         lemma('gen_split_bezier_%d' % n, '%s t : gen_split_bezier_%d N %s t = split_bezier N %s t' % (pts(n), n, pts(n), lst(n)), 'ring_lin N OK.')
         lemma('gen_halve_bezier_%d' % n, '%s : gen_halve_bezier_%d N %s = halve_bezier N %s' % (pts(n), n, pts(n), lst(n)), 'field_lin N OK.')
